@@ -42,7 +42,7 @@ def gen(tier, seed):
             for k in range(1, 41 if tier == "quick" else 81):
                 for x in (("step",), ("stepout",), ("continue",), ("stepinto", 1), ("stepinto", 2)):
                     specs.append(("at-every-pc:" + p.__name__, feat, src, [], [("stepinto", k), ("registers",), x, ("registers",), ("exit",)]))
-    n = 1500 if tier == "quick" else 30000
+    n = 1500 if tier == "quick" else 100000
     kinds = ["step", "stepinto", "stepout", "continue", "breakadd", "breakremove", "goto", "reset"]
     for i in range(n):
         p = PROGS[i % len(PROGS)]
